@@ -6,7 +6,7 @@ V = '/verif'
 man = json.load(open(V + '/MANIFEST.json'))
 pids = [c['property_id'] for c in man['checks']]
 only = sys.argv[1:]
-matrix = {}
+matrix = json.load(open(V + '/seeded/MATRIX.json')) if only and os.path.exists(V + '/seeded/MATRIX.json') else {}
 assert subprocess.run(['git', '-C', '/repo', 'status', '--porcelain', '--untracked-files=no'], capture_output=True, text=True).stdout.strip() == '', '/repo not clean'
 for d in sorted(glob.glob(V + '/seeded/*/')):
     label = os.path.basename(d.rstrip('/'))
